@@ -18,6 +18,7 @@ type Writer struct {
 
 	wr     prefixWriter
 	err    error
+	done   bool   // Has Close completed successfully?
 	level  int    // The current compression level
 	wrHdr  bool   // Have we written the stream header?
 	blkCRC uint32 // CRC-32 IEEE of each block
@@ -137,7 +138,7 @@ func (zw *Writer) flush() error {
 }
 
 func (zw *Writer) Close() error {
-	if zw.err == errClosed {
+	if zw.done {
 		return nil
 	}
 	if zw.err != nil {
@@ -173,7 +174,7 @@ func (zw *Writer) Close() error {
 		return zw.err
 	}
 
-	zw.err = errClosed
+	zw.err, zw.done = errClosed, true
 	return nil
 }
 
